@@ -594,16 +594,16 @@ def add_ref(c, key, u, head):
         defs[j - 1]["refs"].append(ref)
 
 
-def decorate(c, p, i, r, nprobe):
+def decorate(c, p, i, r, nprobe, src=""):
     """skeleton + tables -> list of (label, case with references)."""
     univ = c.get("univ", [])
     base = copy.deepcopy(c)
     base.pop("univ", None)
     if p.get("k") != "ok" or i.get("k") != "ok" or not univ:
-        return [("plain", base)]
+        return [(src + "plain", base)]
     gp, gi = group_sites(p["tab"]), group_sites(i["tab"])
     if set(gp) != set(gi):
-        return [("plain", base)]
+        return [(src + "plain", base)]
     safe, differ, hidden = {}, [], []
     for key in gp:
         ep, ei = gp[key], gi[key]
@@ -628,14 +628,14 @@ def decorate(c, p, i, r, nprobe):
         else:
             for n, y in enumerate(ys[:r.choice([0, 1, 1, 2])]):
                 add_ref(rich, key, univ[y], n > 0 or r.random() < 0.3)
-    out = [("rich", rich)]
+    out = [(src + "rich", rich)]
     r.shuffle(differ)
     r.shuffle(hidden)
     nd = min(len(differ), max(2, nprobe // 2))
     for key, y in differ[:nd] + hidden[:max(0, nprobe - nd)]:
         v = copy.deepcopy(rich)
         add_ref(v, key, univ[y], False)
-        out.append(("differ" if (key, y) in differ[:nd] else "hidden", v))
+        out.append((src + ("differ" if (key, y) in differ[:nd] else "hidden"), v))
     return out
 
 
@@ -710,6 +710,31 @@ class Pipeline:
         self.classes = {}
         self.labels = {}
         self.feat = {}
+        self.agreed = []
+
+    def binding_selftest(self):
+        """Corrupt accepted records (one string of the observed value, or ok -> error) and validate them again:
+        the trace specification must reject every one of them.  Returns (corrupted, rejected)."""
+        def corrupt(v):
+            if v["t"] == "s":
+                return {"t": "s", "s": v["s"] + "~"}
+            if v["t"] == "a" and v["a"]:
+                return {"t": "a", "a": v["a"][:-1] + [corrupt(v["a"][-1])]}
+            if v["t"] == "o" and v["o"]:
+                k = sorted(v["o"])[0]
+                o = dict(v["o"])
+                o[k] = corrupt(o[k])
+                return {"t": "o", "o": o}
+            return {"t": "s", "s": "~"}
+        recs = []
+        for n, a in enumerate(self.agreed):
+            obs = {"k": "ok", "v": corrupt(a["obs"]["v"])} if n % 4 else {"k": "err", "e": {"k": "fnf", "n": "x", "ar": 0}}
+            recs.append({"id": n, "c": a["c"], "obs": obs})
+        if not recs:
+            return 0, 0
+        verdicts, stats = vc.validate_sharded(self.work, recs, "ModulesTrace.tla", "ModulesTrace.cfg", {}, tag="self", shards=1, timeout=300)
+        self.rep.add_tlc(stats)
+        return len(recs), sum(1 for v in verdicts if v.get("v") in ("mismatch", "deviation"))
 
     def bump(self, k, n=1):
         self.counters[k] = self.counters.get(k, 0) + n
@@ -751,6 +776,8 @@ class Pipeline:
         for t, v in zip(trace, verdicts):
             label, c, h = models[t["cid"]]
             self.classify(t, v, label, c, h)
+            if v.get("v") == "agree" and t["obs"].get("k") == "ok" and len(self.agreed) < 40:
+                self.agreed.append({"c": t["c"], "obs": t["obs"]})
         vc.log("[C18 %s] %d cases, %d records: run %.1fs, validate+classify %.1fs" % (tag_, len(hcases), len(trace), t1 - t0, time.time() - t1))
 
     def classify(self, t, v, label, c, h):
@@ -766,7 +793,7 @@ class Pipeline:
             rep.nontrivial({"a": h["args"], "f": h["files"]})
             if not v.get("code", True):
                 self.bump("agree_but_machine_differs")
-            if len(rep.cov["samples"]) < 5 and label in ("rich", "differ", "layout", "meta"):
+            if len(rep.cov["samples"]) < 5 and label in ("rnd-rich", "tree-rich", "layout", "meta"):
                 rep.sample({"args": [a.replace(c["root"], "<root>") for a in h["args"]],
                             "files": {f["p"]: f.get("c", "<dir>") for f in h["files"]},
                             "observed": short(t["obs"]), "via": t["via"], "verdict": "agree"})
@@ -993,18 +1020,18 @@ def run(tier, seed, replay):
             mcf = bg.submit(model_checking, rep, work, quick)
             # 2. TLC enumerates trees and layouts and tabulates property vs machine (seeded subsets on quick)
             f_trees = bg.submit(tlc_gen, work, "trees", "ModulesGen.cfg" if quick else "ModulesGen_T.cfg", seed, None, "trees", 2400,
-                                450 if quick else 9000)
+                                450 if quick else 6000)
             f_lays = bg.submit(tlc_gen, work, "layouts", "ModulesGen.cfg", seed, None, "lay", 2400, 1000 if quick else 0)
             # 3. seeded random trees under random search configurations, tabulated the same way
-            skels = [{"id": n, "c": gen_skeleton(r, deep=(n % 2 == 1))} for n in range(400 if quick else 8000)]
+            skels = [{"id": n, "c": gen_skeleton(r, deep=(n % 2 == 1))} for n in range(400 if quick else 6000)]
             f_rnd = bg.submit(gen_file_sharded, work, skels, "ModulesGen.cfg", 6 if quick else vc.NCPU)
             labelled = [(l, copy.deepcopy(c)) for l, c in witnesses()]
-            labelled += [("meta", gen_meta_case(r)) for _ in range(300 if quick else 4000)]
+            labelled += [("meta", gen_meta_case(r)) for _ in range(300 if quick else 3000)]
             trees, res = f_trees.result()
             rep.add_tlc(res)
             rep.cov["tlc_enumerated_trees"] = len(trees)
             for t in trees:
-                labelled += decorate(t["c"], t["p"], t["i"], r, 3 if quick else 4)
+                labelled += decorate(t["c"], t["p"], t["i"], r, 3 if quick else 4, "tree-")
             lays, res = f_lays.result()
             rep.add_tlc(res)
             rep.cov["tlc_enumerated_layouts"] = len(lays)
@@ -1014,16 +1041,20 @@ def run(tier, seed, replay):
             for s_ in stats:
                 rep.add_tlc(s_)
             for s_, t in zip(skels, tabs):
-                labelled += decorate(s_["c"], t["p"], t["i"], r, 4 if quick else 5)
+                labelled += decorate(s_["c"], t["p"], t["i"], r, 4 if quick else 5, "rnd-")
             vc.log("[C18] generation %.1fs, %d cases" % (time.time() - t0, len(labelled)))
             # 4. every case on the real code, every record through the trace specification
             pipe.check(labelled, "all", timeout=1200 if quick else 3000)
+            ncor, nrej = pipe.binding_selftest()
+            rep.cov["binding_selftest"] = {"corrupted_records": ncor, "rejected_by_trace_spec": nrej}
             problems = mcf.result()
+            if ncor != nrej:
+                problems.append("binding self-test: the trace specification accepted %d of %d corrupted records" % (ncor - nrej, ncor))
         rep.cov["verdicts"] = pipe.counters
         rep.cov["verdicts_by_kind_of_case"] = pipe.labels
         rep.cov["deviation_classes"] = pipe.classes
         rep.cov["records_by_feature"] = dict(sorted(pipe.feat.items()))
-        rep.cov["rule"] = ("cases: hand-written witnesses; probe programs over TLC-enumerated module trees (seeded subsets: thorough 9000 of 21060, "
+        rep.cov["rule"] = ("cases: hand-written witnesses; probe programs over TLC-enumerated module trees (seeded subsets: thorough 6000 of 21060, "
                            "quick 450 of 2628) and layouts (thorough: all 14580, quick: 1000); seeded random trees x search configurations; "
                            "modulemeta queries.  Every case runs the real binary in a sandbox (HOME, cwd, $ORIGIN inside it) and, when the "
                            "configuration is environment-independent, the library API.  non-trivial = accepted record, distinct by (arguments, files)")
